@@ -349,7 +349,8 @@ class Model:
         def matches(md, crit):
             for attr, allowed in crit.items():
                 v = md.get(attr) if isinstance(md, dict) else None
-                if not any(cmeta(v) == cmeta(a) for a in allowed):
+                # "the item's value is one of the allowed values" with Python equality (0 == False == 0.0)
+                if not any(v == a for a in allowed):
                     return False
             return True
 
